@@ -2,7 +2,7 @@
 //! one file, one or two blocks, lines drawn from boundary alphabets.
 use crate::core::{Case, Ctx};
 use crate::rng::Rng;
-use serde_json::json;
+use serde_json::{Value, json};
 
 pub const LINES: &[&str] = &[
     "a", "b", "  b", "b  ", "ab", "B", "", "   ", "\t", "2", "10", "9.5", "-3", "0", "-0", "1e1", "x=2", "x=10 y",
@@ -52,6 +52,7 @@ pub fn generate(_ctx: &mut Ctx, seed: u64, i: usize, kind: &str, always_malforme
     let mut patterns = vec![];
     let mut asyncs = vec![];
     let mut all_changed = false;
+    let mut healthy_lua: Option<String> = None;
     let malformed = always_malformed || rng.chance(1, 6);
     match kind {
         "affects" => {
@@ -60,9 +61,17 @@ pub fn generate(_ctx: &mut Ctx, seed: u64, i: usize, kind: &str, always_malforme
             all_changed = rng.chance(4, 5);
         }
         "check-lua" => {
-            let v = *rng.pick(&["", " ", "\t", "does/not/exist.lua", "missing.lua"]);
-            attrs.push(("check-lua".into(), v.into()));
+            let dir = crate::gen_lua::lua_dir();
+            let empties = [format!("{dir}/empty.lua"), format!("{dir}/comment_only.lua"), format!("{dir}/novalidate.lua")];
+            let v: String = if rng.chance(1, 2) { rng.pick(&empties).clone() } else { rng.pick(&["", " ", "\t", "does/not/exist.lua", "missing.lua"]).to_string() };
+            attrs.push(("check-lua".into(), v.clone()));
             if !v.trim().is_empty() { asyncs.push(json!({"v": "check-lua", "arg": v, "out": {"err": "lua-error"}})); }
+            // a healthy scripted block earlier in the same run (its `validate` must not leak into the malformed one)
+            if rng.chance(1, 2) {
+                let ok = format!("{dir}/nil.lua");
+                healthy_lua = Some(ok.clone());
+                asyncs.push(json!({"v": "check-lua", "arg": ok, "out": Value::Null}));
+            }
             if rng.chance(1, 3) { attrs.push(("check-lua-pattern".into(), "(".into())); }
         }
         "check-ai" => {
@@ -128,6 +137,11 @@ pub fn generate(_ctx: &mut Ctx, seed: u64, i: usize, kind: &str, always_malforme
     let mut src = String::new();
     let pre = rng.below(3);
     for k in 0..pre { src += &format!("{}filler {k}{}\n", lang.open, lang.close); }
+    if let Some(ok) = &healthy_lua {
+        for k in 0..1 + rng.below(2) {
+            src += &format!("{}<block name=\"healthy{k}\" check-lua=\"{ok}\">{}\nfine\n{}</block>{}\n", lang.open, lang.close, lang.open, lang.close);
+        }
+    }
     let indent = ["", "  ", "\t"][rng.below(3)];
     let inline_first = !lang.close.is_empty() && rng.chance(1, 4);
     let nested = rng.chance(1, 6);
@@ -290,16 +304,18 @@ pub fn generate_exhaustive(_ctx: &mut Ctx, kind: &str, maxlen: usize, i: usize) 
 // every sequence of start / end tags up to a length (balanced or not), several tags per comment or one per comment
 
 pub fn tagseq_count(maxlen: usize) -> usize {
-    4 * (0..=maxlen).map(|l| 1usize << l).sum::<usize>()
+    6 * (0..=maxlen).map(|l| 1usize << l).sum::<usize>()
 }
 
 pub fn generate_tagseq(_ctx: &mut Ctx, maxlen: usize, i: usize) -> Case {
-    let layout = i % 4;
-    let mut s = i / 4;
+    let layout = i % 6;
+    let mut s = i / 6;
     let mut len = 0;
     while s >= (1usize << len) { s -= 1usize << len; len += 1; }
     let _ = maxlen;
-    let (path, open, close) = [("t.py", "# ", ""), ("t.rs", "// ", ""), ("t.c", "/* ", " */"), ("t.html", "<!-- ", " -->")][layout];
+    // layouts 4 and 5: line comments holding up to two *bare* tags glued together, the comment ending right after the last `>`
+    let (path, open, close) = [("t.py", "# ", ""), ("t.rs", "// ", ""), ("t.c", "/* ", " */"), ("t.html", "<!-- ", " -->"), ("u.py", "# ", ""), ("u.js", "// ", "")][layout];
+    let glued = layout >= 4;
     let mut src = String::from(if layout == 3 { "<p>x</p>\n" } else { "" });
     let mut k = 0;
     let mut j = 0;
@@ -309,8 +325,8 @@ pub fn generate_tagseq(_ctx: &mut Ctx, maxlen: usize, i: usize) -> Case {
         let mut body = String::new();
         for g in 0..group {
             let is_start = (s >> (j + g)) & 1 == 0;
-            if is_start { body += &format!("<block name=\"n{k}\">"); k += 1; } else { body += "</block>"; }
-            if g + 1 < group { body += " and "; }
+            if is_start { if glued && (j + g) % 2 == 1 { body += "<block>"; } else { body += &format!("<block name=\"n{k}\">"); } k += 1; } else { body += "</block>"; }
+            if g + 1 < group && !glued { body += " and "; }
         }
         src += &format!("{open}{body}{close}\nline {j}\n");
         j += group;
